@@ -242,47 +242,47 @@ Proof.
   rewrite !no_break_app, no_break_print_signed, no_break_opb_var. reflexivity.
 Qed.
 
-Lemma no_break_opb_header_line fv : no_break (fst fv) && no_break (snd fv) = true ->
-  no_break (opb_header_line fv) = true.
+Lemma no_break_opb_header_line_as_found fv : no_break (fst fv) && no_break (snd fv) = true ->
+  no_break (opb_header_line_as_found fv) = true.
 Proof.
-  intros H. apply andb_true_iff in H as [H1 H2]. unfold opb_header_line.
+  intros H. apply andb_true_iff in H as [H1 H2]. unfold opb_header_line_as_found.
   apply no_break_ascii_replace. rewrite !no_break_app, H1, H2. reflexivity.
 Qed.
 
-Lemma no_break_opb_varname_lines : forall names i, forallb no_break names = true ->
-  forallb no_break (opb_varname_lines i names) = true.
+Lemma no_break_opb_varname_lines_as_found : forall names i, forallb no_break names = true ->
+  forallb no_break (opb_varname_lines_as_found i names) = true.
 Proof.
   induction names as [|nm names IH]; intros i H; [reflexivity|].
   cbn [forallb] in H. apply andb_true_iff in H as [H1 H2].
-  cbn [opb_varname_lines forallb]. rewrite IH by exact H2.
+  cbn [opb_varname_lines_as_found forallb]. rewrite IH by exact H2.
   rewrite !no_break_app, no_break_print_Z, H1. reflexivity.
 Qed.
 
-Lemma no_break_opb_comment_lines h names : header_ok h = true -> names_ok names = true ->
-  forallb no_break (opb_comment_lines h names) = true.
+Lemma no_break_opb_comment_lines_as_found h names : header_ok h = true -> names_ok names = true ->
+  forallb no_break (opb_comment_lines_as_found h names) = true.
 Proof.
-  intros Hh Hn. unfold opb_comment_lines. rewrite forallb_app. apply andb_true_iff. split.
+  intros Hh Hn. unfold opb_comment_lines_as_found. rewrite forallb_app. apply andb_true_iff. split.
   - destruct h as [h|]; [|reflexivity]. rewrite forallb_app. apply andb_true_iff. split; [|reflexivity].
     cbn [header_ok] in Hh. rewrite forallb_map. rewrite forallb_forall in *.
-    intros fv Hfv. apply no_break_opb_header_line, Hh, Hfv.
+    intros fv Hfv. apply no_break_opb_header_line_as_found, Hh, Hfv.
   - destruct names as [ns|]; [|reflexivity]. rewrite forallb_app. apply andb_true_iff.
-    split; [|reflexivity]. apply no_break_opb_varname_lines, Hn.
+    split; [|reflexivity]. apply no_break_opb_varname_lines_as_found, Hn.
 Qed.
 
-Lemma no_break_opb_lines h names f : header_ok h = true -> names_ok names = true ->
-  forallb no_break (opb_lines h names f) = true.
+Lemma no_break_opb_lines_as_found h names f : header_ok h = true -> names_ok names = true ->
+  forallb no_break (opb_lines_as_found h names f) = true.
 Proof.
-  intros Hh Hn. unfold opb_lines. cbn [forallb]. apply andb_true_iff. split.
+  intros Hh Hn. unfold opb_lines_as_found. cbn [forallb]. apply andb_true_iff. split.
   - unfold opb_spec_line. rewrite !no_break_app, !no_break_print_Z. reflexivity.
-  - rewrite forallb_app, no_break_opb_comment_lines by assumption. cbn [andb].
+  - rewrite forallb_app, no_break_opb_comment_lines_as_found by assumption. cbn [andb].
     rewrite forallb_map. apply forallb_true. intros c _. apply no_break_constraint_line.
 Qed.
 
-Lemma split_lines_print_opb h names f : header_ok h = true -> names_ok names = true ->
-  split_lines (print_opb h names f) = opb_lines h names f.
+Lemma split_lines_print_opb_as_found h names f : header_ok h = true -> names_ok names = true ->
+  split_lines (print_opb_as_found h names f) = opb_lines_as_found h names f.
 Proof.
-  intros Hh Hn. unfold print_opb. apply split_lines_unlines.
-  eapply forallb_impl; [|apply no_break_opb_lines; assumption]. apply no_break_no_lf.
+  intros Hh Hn. unfold print_opb_as_found. apply split_lines_unlines.
+  eapply forallb_impl; [|apply no_break_opb_lines_as_found; assumption]. apply no_break_no_lf.
 Qed.
 
 (* ------------------------------------------------------------------ *)
@@ -290,22 +290,22 @@ Qed.
 
 Definition starts_star (l : text) : Prop := exists r, l = "*"%char :: r.
 
-Lemma opb_varname_lines_star : forall names i, Forall starts_star (opb_varname_lines i names).
+Lemma opb_varname_lines_as_found_star : forall names i, Forall starts_star (opb_varname_lines_as_found i names).
 Proof.
-  induction names as [|nm names IH]; intros i; cbn [opb_varname_lines]; constructor.
+  induction names as [|nm names IH]; intros i; cbn [opb_varname_lines_as_found]; constructor.
   - cbn. eexists; reflexivity.
   - apply IH.
 Qed.
 
-Lemma opb_comment_lines_star h names : Forall starts_star (opb_comment_lines h names).
+Lemma opb_comment_lines_as_found_star h names : Forall starts_star (opb_comment_lines_as_found h names).
 Proof.
-  unfold opb_comment_lines. apply Forall_app. split.
+  unfold opb_comment_lines_as_found. apply Forall_app. split.
   - destruct h as [h|]; [|constructor]. apply Forall_app. split.
     + rewrite Forall_forall. intros l Hl. apply in_map_iff in Hl as (fv & <- & _).
-      unfold opb_header_line, ascii_replace. cbn. eexists; reflexivity.
+      unfold opb_header_line_as_found, ascii_replace. cbn. eexists; reflexivity.
     + constructor; [eexists; reflexivity|constructor].
   - destruct names as [ns|]; [|constructor]. apply Forall_app. split.
-    + apply opb_varname_lines_star.
+    + apply opb_varname_lines_as_found_star.
     + constructor; [eexists; reflexivity|constructor].
 Qed.
 
@@ -371,16 +371,16 @@ Qed.
 Definition opb_printable (f : formula) : Prop :=
   printable (numvar f) /\ printable (len (constraints f)) /\ Forall pbc_printable (constraints f).
 
-Theorem opb_roundtrip_proved h names f :
+Theorem opb_roundtrip_as_found_proved h names f :
   opb_valid f -> opb_printable f -> header_ok h = true -> names_ok names = true ->
-  parse_opb (print_opb h names f) = OOk (numvar f) (constraints f).
+  parse_opb (print_opb_as_found h names f) = OOk (numvar f) (constraints f).
 Proof.
   intros [Hn Hv] (Pn & Pm & Pc) Hh Hnm. unfold parse_opb.
-  rewrite split_lines_print_opb by assumption. unfold opb_lines.
+  rewrite split_lines_print_opb_as_found by assumption. unfold opb_lines_as_found.
   pose proof (len_nonneg (constraints f)) as Hm.
   rewrite parse_opb_spec_line; try assumption; try (apply small_of_bound; assumption).
-  destruct (parse_opb_lines_comments (opb_comment_lines h names) (numvar f) 1
-              (map constraint_line (constraints f)) (opb_comment_lines_star h names)) as (k' & ->).
+  destruct (parse_opb_lines_comments (opb_comment_lines_as_found h names) (numvar f) 1
+              (map constraint_line (constraints f)) (opb_comment_lines_as_found_star h names)) as (k' & ->).
   rewrite parse_opb_lines_constraints by assumption.
   rewrite Z.eqb_refl. reflexivity.
 Qed.
@@ -407,15 +407,158 @@ Proof.
 Qed.
 
 (* shape: first line declares the counts, then comments, then one line per constraint *)
-Theorem opb_shape_proved h names f : header_ok h = true -> names_ok names = true ->
+Theorem opb_shape_as_found_proved h names f : header_ok h = true -> names_ok names = true ->
+  split_lines (print_opb_as_found h names f) =
+    opb_spec_line (numvar f) (len (constraints f)) :: opb_comment_lines_as_found h names ++
+    map constraint_line (constraints f) /\
+  Forall starts_star (opb_comment_lines_as_found h names) /\
+  Forall not_star (map constraint_line (constraints f)).
+Proof.
+  intros Hh Hn. split; [apply split_lines_print_opb_as_found; assumption|].
+  split; [apply opb_comment_lines_as_found_star|].
+  rewrite Forall_forall. intros l Hl. apply in_map_iff in Hl as (c & <- & _).
+  apply constraint_line_not_star.
+Qed.
+
+(* ------------------------------------------------------------------ *)
+(* the writer after the repair (commit 7278321) *)
+
+Lemma starts_star_of_prefix l : starts_with (lit "* ") l -> starts_star l.
+Proof. intros (r & ->). eexists; reflexivity. Qed.
+
+Lemma opb_header_entry_lines_star fv : Forall starts_star (entry_lines (opb_header_entry fv)).
+Proof.
+  unfold opb_header_entry. rewrite entry_lines_ascii_replace.
+  rewrite Forall_forall. intros l Hl. apply in_map_iff in Hl as (l0 & <- & Hl0).
+  pose proof (within_comment_lines (lit "* ") (fst fv ++ lit ": " ++ snd fv) eq_refl eq_refl) as H.
+  rewrite Forall_forall in H. destruct (H l0 Hl0) as (r & ->).
+  unfold ascii_replace. rewrite map_app. eexists; reflexivity.
+Qed.
+
+Lemma opb_varname_entries_lines_star : forall names i,
+  Forall starts_star (concat (map entry_lines (opb_varname_entries i names))).
+Proof.
+  induction names as [|nm names IH]; intros i; [constructor|].
+  cbn [opb_varname_entries map concat]. apply Forall_app. split; [|apply IH].
+  change (lit "* varname x" ++ print_Z i ++ [SP] ++ nm) with (lit "* " ++ lit "varname x" ++ print_Z i ++ [SP] ++ nm).
+  eapply Forall_impl; [|apply within_comment_lines; reflexivity]. apply starts_star_of_prefix.
+Qed.
+
+Lemma opb_comment_lines_entries h names :
+  opb_comment_lines h names = concat (map entry_lines (opb_comment_entries h names)).
+Proof. apply split_lines_unlines_entries. Qed.
+
+Lemma opb_comment_lines_star h names : Forall starts_star (opb_comment_lines h names).
+Proof.
+  rewrite opb_comment_lines_entries. unfold opb_comment_entries. rewrite map_app, concat_app.
+  assert (Hc : Forall starts_star (concat (map entry_lines [lit "*"]))).
+  { cbn. constructor; [eexists; reflexivity|constructor]. }
+  apply Forall_app. split.
+  - destruct h as [h|]; [|constructor]. rewrite map_app, concat_app. apply Forall_app. split; [|exact Hc].
+    induction h as [|fv h IH]; [constructor|]. cbn [map concat]. apply Forall_app.
+    split; [apply opb_header_entry_lines_star|exact IH].
+  - destruct names as [ns|]; [|constructor]. rewrite map_app, concat_app. apply Forall_app.
+    split; [apply opb_varname_entries_lines_star|exact Hc].
+Qed.
+
+Lemma no_break_opb_spec_line n m : no_break (opb_spec_line n m) = true.
+Proof. unfold opb_spec_line. rewrite !no_break_app, !no_break_print_Z. reflexivity. Qed.
+
+(* the lines of the text, for EVERY header and EVERY list of names *)
+Lemma split_lines_print_opb h names f :
+  split_lines (print_opb h names f) =
+  opb_spec_line (numvar f) (len (constraints f)) :: opb_comment_lines h names ++
+  map constraint_line (constraints f).
+Proof.
+  unfold print_opb, opb_entries. rewrite split_lines_unlines_entries. cbn [map concat].
+  rewrite entry_lines_plain by apply no_break_no_lf, no_break_opb_spec_line. cbn [app]. f_equal.
+  rewrite map_app, concat_app, <- opb_comment_lines_entries. f_equal.
+  apply concat_entry_lines_plain. rewrite forallb_map. apply forallb_true.
+  intros c _. apply no_break_no_lf, no_break_constraint_line.
+Qed.
+
+(* the independent reader on: counts line, any '*' lines, the constraint lines *)
+Lemma parse_opb_on_lines cl f t : Forall starts_star cl -> opb_valid f -> opb_printable f ->
+  split_lines t = opb_spec_line (numvar f) (len (constraints f)) :: cl ++ map constraint_line (constraints f) ->
+  parse_opb t = OOk (numvar f) (constraints f).
+Proof.
+  intros Hc [Hn Hv] (Pn & Pm & Pc) E. unfold parse_opb. rewrite E.
+  pose proof (len_nonneg (constraints f)) as Hm.
+  rewrite parse_opb_spec_line; try assumption; try (apply small_of_bound; assumption).
+  destruct (parse_opb_lines_comments cl (numvar f) 1 (map constraint_line (constraints f)) Hc) as (k' & ->).
+  rewrite parse_opb_lines_constraints by assumption.
+  rewrite Z.eqb_refl. reflexivity.
+Qed.
+
+Theorem opb_roundtrip_proved h names f :
+  opb_valid f -> opb_printable f ->
+  parse_opb (print_opb h names f) = OOk (numvar f) (constraints f).
+Proof.
+  intros Hv Hp. apply (parse_opb_on_lines (opb_comment_lines h names)); try assumption.
+  - apply opb_comment_lines_star.
+  - apply split_lines_print_opb.
+Qed.
+
+Theorem opb_shape_proved h names f :
   split_lines (print_opb h names f) =
     opb_spec_line (numvar f) (len (constraints f)) :: opb_comment_lines h names ++
     map constraint_line (constraints f) /\
   Forall starts_star (opb_comment_lines h names) /\
   Forall not_star (map constraint_line (constraints f)).
 Proof.
-  intros Hh Hn. split; [apply split_lines_print_opb; assumption|].
+  split; [apply split_lines_print_opb|].
   split; [apply opb_comment_lines_star|].
   rewrite Forall_forall. intros l Hl. apply in_map_iff in Hl as (c & <- & _).
   apply constraint_line_not_star.
+Qed.
+
+(* the text has no carriage return at all (so it reads the same in text mode) *)
+Lemma no_cr_opb_varname_entries : forall names i, forallb no_cr (opb_varname_entries i names) = true.
+Proof.
+  induction names as [|nm names IH]; intros i; [reflexivity|].
+  cbn [opb_varname_entries forallb]. rewrite IH, no_cr_within_comment; reflexivity.
+Qed.
+
+Theorem print_opb_no_cr h names f : no_cr (print_opb h names f) = true.
+Proof.
+  unfold print_opb, opb_entries. apply no_cr_unlines. cbn [forallb].
+  rewrite (no_break_no_cr _ (no_break_opb_spec_line _ _)). cbn [andb].
+  rewrite forallb_app. apply andb_true_iff. split.
+  - unfold opb_comment_entries. rewrite forallb_app. apply andb_true_iff. split.
+    + destruct h as [h|]; [|reflexivity]. rewrite forallb_app. apply andb_true_iff. split; [|reflexivity].
+      rewrite forallb_map. apply forallb_true. intros fv _. unfold opb_header_entry.
+      apply no_cr_ascii_replace, no_cr_within_comment. reflexivity.
+    + destruct names as [ns|]; [|reflexivity]. rewrite forallb_app, no_cr_opb_varname_entries. reflexivity.
+  - rewrite forallb_map. apply forallb_true. intros c _. apply no_break_no_cr, no_break_constraint_line.
+Qed.
+
+(* the two writers agree when no field or name has a line break *)
+Lemma opb_varname_entries_as_found : forall names i, forallb no_break names = true ->
+  opb_varname_entries i names = opb_varname_lines_as_found i names.
+Proof.
+  induction names as [|nm names IH]; intros i H; [reflexivity|].
+  cbn [forallb] in H. apply andb_true_iff in H as [H1 H2].
+  cbn [opb_varname_entries opb_varname_lines_as_found]. rewrite IH by exact H2. f_equal.
+  apply within_comment_id. rewrite !no_break_app, no_break_print_Z, H1. reflexivity.
+Qed.
+
+Lemma opb_comment_entries_as_found h names : header_ok h = true -> names_ok names = true ->
+  opb_comment_entries h names = opb_comment_lines_as_found h names.
+Proof.
+  intros Hh Hn. unfold opb_comment_entries, opb_comment_lines_as_found. f_equal.
+  - destruct h as [h|]; [|reflexivity]. f_equal. cbn [header_ok] in Hh.
+    apply map_ext_in. intros fv Hfv. rewrite forallb_forall in Hh. specialize (Hh fv Hfv).
+    apply andb_true_iff in Hh as [H1 H2]. unfold opb_header_entry, opb_header_line_as_found.
+    rewrite within_comment_id; [reflexivity|]. rewrite !no_break_app, H1, H2. reflexivity.
+  - destruct names as [ns|]; [|reflexivity]. f_equal. apply opb_varname_entries_as_found, Hn.
+Qed.
+
+Theorem print_opb_unchanged h names f : header_ok h = true -> names_ok names = true ->
+  print_opb h names f = print_opb_as_found h names f /\
+  opb_comment_lines h names = opb_comment_lines_as_found h names.
+Proof.
+  intros Hh Hn. unfold print_opb, print_opb_as_found, opb_entries, opb_lines_as_found, opb_comment_lines.
+  rewrite opb_comment_entries_as_found by assumption. split; [reflexivity|].
+  apply split_lines_unlines. eapply forallb_impl; [|apply no_break_opb_comment_lines_as_found; assumption].
+  apply no_break_no_lf.
 Qed.
